@@ -399,11 +399,10 @@ func isReflectSetter(name string) bool {
 	return strings.HasPrefix(mname, "Set") || mname == "Clear" || mname == "Grow"
 }
 
-// analyse recomputes fn's summary; reports whether it changed.
-func (ea *effectAnalysis) analyse(fn *ssa.Function) bool {
-	m := ea.m
+// stateFor: provenance state of fn with the contents of its fresh objects computed
+// (stores into them), iterated to a local fixpoint, against the current summaries.
+func (ea *effectAnalysis) stateFor(fn *ssa.Function) *fnState {
 	st := &fnState{ea: ea, fn: fn, own: map[ssa.Value]origSet{}, busy: map[ssa.Value]bool{}, contents: map[ssa.Instruction]origSet{}}
-	// pass 1: contents of fresh objects (stores into them), iterate to a local fixpoint
 	for pass := 0; pass < 4; pass++ {
 		st.own = map[ssa.Value]origSet{}
 		before := contentsSize(st.contents)
@@ -439,6 +438,13 @@ func (ea *effectAnalysis) analyse(fn *ssa.Function) bool {
 			break
 		}
 	}
+	return st
+}
+
+// analyse recomputes fn's summary; reports whether it changed.
+func (ea *effectAnalysis) analyse(fn *ssa.Function) bool {
+	m := ea.m
+	st := ea.stateFor(fn)
 	sum := &fnSummary{retOwn: origSet{}, retCont: origSet{}, extCalls: map[string]bool{}, globReads: map[*ssa.Global]bool{}}
 	addWrite := func(os origSet, what, kind string, in ssa.Instruction, via []*ssa.Function, at *ssa.Function, pos string) {
 		for o := range os {
